@@ -29,7 +29,8 @@ Inductive ctx :=
 | KAndR (k : ctx)
 | KElseL (k : ctx) (y : cond)      (* left operand of an ElseIf (at k) whose right operand is y *)
 | KElseR (k : ctx)
-| KSub (k : ctx) (sel : list term).   (* the condition of a nested an(entity/set_of(sel, ...)) standing at k *)
+| KSub (k : ctx) (sel : list term)    (* the condition of a nested an(entity/set_of(sel, ...)) standing at k *)
+| KForAll (k : ctx) (c : cond).       (* the condition c of a for_all standing at k *)
 
 (* what the descriptor / quantifier above the conditions root require: every selected expression itself and its variables *)
 Definition own_key (t : term) : list key :=
@@ -45,6 +46,7 @@ Fixpoint req_from (k : ctx) (t : option bool) : list key :=
   | KElseL k' y => (if or_adds_right true t then cvars y else []) ++ req_from k' (or_parent_arg true t)
   | KElseR k' => req_from k' (or_parent_arg false t)
   | KSub k' sel => req_top sel ++ req_from k' t       (* QueryObjectDescriptor / ResultQuantifier: the selection and what the parent requires *)
+  | KForAll k' c => (if forall_adds_condition_variables then cvars c else []) ++ req_from k' (and_parent_arg false t)
   end.
 
 (* ---- SeenSet as _is_duplicate_output_ uses it (never asked about an empty assignment) ---- *)
@@ -126,7 +128,25 @@ Section D.
         let (rows, sl) := evalD c' (KSub k sel) b ywf (d_l s) in
         (flat_map (fun p : binding * bool => map (fun b' => (b', snd p)) (bind_selected h dom sel (fst p))) rows,
          DN (d_sT s) (d_sF s) sl (d_r s))
-    | _ => (eval h dom c b ywf, s)      (* comparisons, mappings in condition position; for_all: as the P-model *)
+    | CForAll u c' =>
+        (* ForAll._evaluate__: one pass per universal value, each from a FRESH de-duplication state of the condition
+           (self.condition._reset_cache_()); otherwise as the P-model: the satisfying rows, completed on the free variables,
+           restricted to them, intersected over the universal values *)
+        let free := nodup_keys (filter (fun k0 => negb (Nat.eqb k0 u)) (cvars c')) in
+        let pass (v : val) : list binding :=
+          flat_map (fun p : binding * bool =>
+                      map (restrict_to free)
+                          ((fix bind_vars (xs : list key) (b1 : binding) : list binding :=
+                              match xs with
+                              | [] => [b1]
+                              | x :: xs' => match lookup b1 x with
+                                            | Some _ => bind_vars xs' b1
+                                            | None => flat_map (fun w => bind_vars xs' (bind b1 x w)) (dom x)
+                                            end
+                              end) free (fst p)))
+                   (filter (fun p => negb (snd p)) (fst (evalD c' (KForAll k c') (bind b u v) false DL))) in
+        (map (fun s0 => (merge b s0, false)) (inter pass (dom u)), s)
+    | _ => (eval h dom c b ywf, s)      (* comparisons, mappings in condition position *)
     end.
 
   (* the query evaluated from an arbitrary de-duplication state (what an earlier evaluation might have left behind) *)
@@ -171,6 +191,6 @@ Fixpoint dfrag (c : cond) : bool :=
   | CCmp _ l r => dterm l && dterm r
   | CTruth t _ => dterm t
   | CAnd a b | CElseIf a b => dfrag a && dfrag b
-  | CForAll _ _ => false
+  | CForAll _ c' => dfrag c'
   | CSub sel c' => forallb dterm sel && dfrag c'
   end.
